@@ -1,11 +1,15 @@
 (* Property C15 - a miner's job is its own.  Only theorem statements, closed by [exact].
 
    Every statement is about the model of Model/Stratum.v and quantifies over ALL event lists: an event list is an
-   interleaving, at the granularity of the code's critical sections, of logins, new templates, per-connection job
-   notifications, submissions and disconnections of any number of miners.  pow_ok (does a blob meet the proof of
-   work?) is universally quantified: the theorems hold for every such function. *)
+   interleaving, at the granularity of the code's critical sections, of logins, new templates (= calls of SendJob, each
+   with its own block and its own minimum difficulty), per-connection job notifications (the critical section one call
+   of SendJob runs for one connection, at any later time), submissions and disconnections of any number of miners.
+   pow (the proof-of-work value of a blob under a seed) is universally quantified: the theorems hold for every such
+   function; which seed and which difficulty the server uses is part of the model.
+   [tpl_ok]: the template's difficulty is at least 1, fits 64 bits and is the minimum difficulty passed to SendJob
+   (what GetBlockTemplate produces outside the masterchain). *)
 From Coq Require Import NArith List.
-From Virel Require Import Lib.Config Lib.AMap Model.Stratum Proofs.Stratum Gen.Params.
+From Virel Require Import Lib.Config Lib.AMap Lib.U64 Model.Stratum Proofs.Stratum Gen.Params.
 Import ListNotations.
 Open Scope N_scope.
 
@@ -13,19 +17,20 @@ Open Scope N_scope.
 Theorem C15_cfg_ok_mainnet : cfg_ok_stratum cfg_mainnet = true. Proof. vm_compute. reflexivity. Qed.
 Theorem C15_cfg_ok_testnet : cfg_ok_stratum cfg_testnet = true. Proof. vm_compute. reflexivity. Qed.
 Theorem C15_cfg_ok_unittest : cfg_ok_stratum cfg_unittest = true. Proof. vm_compute. reflexivity. Qed.
+Theorem C15_cfg_ok_verifnet : cfg_ok_stratum cfg_verifnet = true. Proof. vm_compute. reflexivity. Qed.
 
 (* every job held by a connection points to a block whose recipient is the connection's login address, and the blob
    that was sent with the job names, for this chain, a block paying that address *)
-Theorem C15_job_pays_owner : forall cfg pow_ok evs s os cid c j,
-  run cfg pow_ok init_server evs = (s, os) -> nget (s_conns s) cid = Some c -> In j (c_jobs c) ->
+Theorem C15_job_pays_owner : forall cfg pow evs s os cid c j,
+  run cfg pow init_server evs = (s, os) -> nget (s_conns s) cid = Some c -> In j (c_jobs c) ->
   (exists b, nget (s_heap s) (j_ptr j) = Some b /\ b_rcp b = c_addr c) /\ pays cfg (j_sent j) (c_addr c) = true.
 Proof. exact job_pays_owner_run. Qed.
 Print Assumptions C15_job_pays_owner.
 
 (* every job the server sends - login answer or notification - describes a block paying the login address *)
-Theorem C15_sent_job_pays_login : forall cfg pow_ok, cfg_ok_stratum cfg = true ->
-  forall evs s g e s' jid sent,
-  run_view cfg pow_ok init_server [] evs = (s, g) -> step cfg pow_ok s e = (s', OJob jid sent) ->
+Theorem C15_sent_job_pays_login : forall cfg pow, cfg_ok_stratum cfg = true ->
+  forall evs s g e s' jid sent t,
+  run_view cfg pow init_server [] evs = (s, g) -> step cfg pow s e = (s', OJob jid sent t) ->
   match e with
   | ELogin cid addr _ => pays cfg sent addr = true
   | ENotify cid _ _ _ => exists v, nget g cid = Some v /\ pays cfg sent (mv_addr v) = true
@@ -35,28 +40,30 @@ Proof. exact sent_job_pays_login. Qed.
 Print Assumptions C15_sent_job_pays_login.
 
 (* at any later time the blob recomputed from the job's block is the blob that was sent with the job *)
-Theorem C15_job_is_stable : forall cfg pow_ok evs s os cid c j,
-  run cfg pow_ok init_server evs = (s, os) -> nget (s_conns s) cid = Some c -> In j (c_jobs c) ->
+Theorem C15_job_is_stable : forall cfg pow evs s os cid c j,
+  run cfg pow init_server evs = (s, os) -> nget (s_conns s) cid = Some c -> In j (c_jobs c) ->
   exists b, nget (s_heap s) (j_ptr j) = Some b /\ blob_of cfg b = Some (j_sent j).
 Proof. exact job_is_stable_run. Qed.
 Print Assumptions C15_job_is_stable.
 
 (* a well-formed submission for a job the connection holds is judged against exactly the blob the miner hashed (the
-   sent blob with the miner's nonce and extra nonce): block paying the login address iff that blob meets the proof
-   of work; the server's state does not change *)
-Theorem C15_submit_judged_against_sent_blob : forall cfg pow_ok evs s os cid c jid j len n x,
-  run cfg pow_ok init_server evs = (s, os) -> nget (s_conns s) cid = Some c -> find_job (c_jobs c) jid = Some j -> 4 <= len ->
-  step cfg pow_ok s (ESubmit cid jid (NBytes len n) x MNone) =
-    (s, if pow_ok (miner_blob (j_sent j) n x) then OFound (c_addr c) (miner_blob (j_sent j) n x) else ORejectedLowDiff).
+   sent blob with the miner's nonce and extra nonce), with the proof-of-work value of that blob under that blob's own
+   seed, against the difficulty of the job's own block ([judge]: block paying the login address iff the value meets
+   that difficulty, else "low difficulty"); the server's state does not change *)
+Theorem C15_submit_judged_against_sent_blob : forall cfg pow evs s os cid c jid j len n x,
+  run cfg pow init_server evs = (s, os) -> nget (s_conns s) cid = Some c -> find_job (c_jobs c) jid = Some j -> 4 <= len ->
+  exists b, nget (s_heap s) (j_ptr j) = Some b /\
+  step cfg pow s (ESubmit cid jid (NBytes len n) x MNone) =
+    submit_result s cid (judge cfg pow (b_diff b) (c_addr c) (miner_blob (j_sent j) n x)).
 Proof. exact submit_judged_against_sent_blob_run. Qed.
 Print Assumptions C15_submit_judged_against_sent_blob.
 
 (* what the server holds for a connection is what the miner was told: the login address, and exactly the last
    STRATUM_JOBS_HISTORY jobs (ids and blobs) sent to it; the miner's side (run_view) is a function of the events and
    the answers only *)
-Theorem C15_held_jobs_are_advertised : forall cfg pow_ok, cfg_ok_stratum cfg = true ->
+Theorem C15_held_jobs_are_advertised : forall cfg pow, cfg_ok_stratum cfg = true ->
   forall evs s g cid,
-  run_view cfg pow_ok init_server [] evs = (s, g) ->
+  run_view cfg pow init_server [] evs = (s, g) ->
   (forall c, nget (s_conns s) cid = Some c -> exists v, nget g cid = Some v /\
      c_addr c = mv_addr v /\ map jobkey (c_jobs c) = lastn (hist cfg) (mv_jobs v)) /\
   (forall v, nget g cid = Some v -> exists c, nget (s_conns s) cid = Some c /\
@@ -64,22 +71,100 @@ Theorem C15_held_jobs_are_advertised : forall cfg pow_ok, cfg_ok_stratum cfg = t
 Proof. exact held_jobs_are_advertised. Qed.
 Print Assumptions C15_held_jobs_are_advertised.
 
-(* THE PROPERTY in the miner's own terms: after any interleaving, for a job within the advertised history, a nonce
-   is judged against the very blob that was sent with that job id - accepted (block paying the miner's login
-   address) when it solves that blob, "low difficulty" only when it does not, never "unknown job" *)
-Theorem C15_advertised_job_is_its_own : forall cfg pow_ok, cfg_ok_stratum cfg = true ->
-  forall evs s g cid v jid sent len n x,
-  run_view cfg pow_ok init_server [] evs = (s, g) ->
-  nget g cid = Some v -> advertised cfg v jid = Some sent -> 4 <= len ->
-  step cfg pow_ok s (ESubmit cid jid (NBytes len n) x MNone) =
-    (s, if pow_ok (miner_blob sent n x) then OFound (mv_addr v) (miner_blob sent n x) else ORejectedLowDiff).
+(* the miner's own terms: after any interleaving, for a job within the advertised history, a nonce is judged against
+   the very blob that was sent with that job id, under that blob's own seed - never "unknown job" *)
+Theorem C15_advertised_job_is_its_own : forall cfg pow, cfg_ok_stratum cfg = true ->
+  forall evs s g cid v jid a len n x,
+  run_view cfg pow init_server [] evs = (s, g) ->
+  nget g cid = Some v -> advertised cfg v jid = Some a -> 4 <= len ->
+  exists d, step cfg pow s (ESubmit cid jid (NBytes len n) x MNone) =
+    submit_result s cid (judge cfg pow d (mv_addr v) (miner_blob (a_sent a) n x)).
 Proof. exact advertised_job_is_its_own. Qed.
 Print Assumptions C15_advertised_job_is_its_own.
 
+(* THE TARGET OF A JOB IS ITS OWN, for every interleaving of broadcasts and connection activity: take any history, then
+   the k-th call SendJob(bl, md) with a template of content tpl, then ANY further events (later calls of SendJob with
+   other blocks and difficulties, logins, notifications, submissions, disconnections), then the critical section of
+   call k for connection cid: the target it sends is the target of md - not of whatever LastMinDiff holds by then -
+   and the blob it sends names the content tpl of that same call *)
+Theorem C15_broadcast_target_is_its_own : forall cfg pow evs1 s1 os1 tpl ts extra ch d md s1' evs2 s2 os2 cid x jid s3 sent t,
+  run cfg pow init_server evs1 = (s1, os1) ->
+  step cfg pow s1 (ETemplate tpl ts extra ch d md) = (s1', ONone) ->
+  run cfg pow s1' evs2 = (s2, os2) ->
+  step cfg pow s2 (ENotify cid (N.of_nat (length (s_tpls s1)) + 1) x jid) = (s3, OJob jid sent t) ->
+  job_target md = Some t /\ exists c, nget (s_conns s2) cid = Some c /\ own_entry cfg sent = Some (Own tpl (c_addr c)).
+Proof. exact broadcast_target_is_its_own. Qed.
+Print Assumptions C15_broadcast_target_is_its_own.
+
+(* a login answer carries the target of the minimum difficulty stored together with the template it copies *)
+Theorem C15_login_target_is_last_calls : forall cfg pow s cid addr jid s' sent t,
+  step cfg pow s (ELogin cid addr jid) = (s', OJob jid sent t) ->
+  exists p d b, s_last s = Some (p, d) /\ job_target d = Some t /\
+    nget (s_heap s) p = Some b /\ own_entry cfg sent = Some (Own (b_tpl b) addr).
+Proof. exact login_target_is_last_calls. Qed.
+Print Assumptions C15_login_target_is_last_calls.
+
+(* worked example (non-vacuity): call 1 of SendJob with difficulty 9, a login, call 2 with difficulty 4 while call 1's
+   critical section for the connection is still queued, then the two critical sections, call 2's first: the targets
+   sent are those of 9 (login), 4 (call 2) and 9 (call 1, although LastMinDiff is 4 by then) *)
+Theorem C15_overlapping_broadcasts_example :
+  sent_targets (snd (run cfg_verifnet (fun _ _ => 0) init_server
+    [ETemplate 1 1000 1 [] 9 9; ELogin 1 1 1; ETemplate 2 2000 2 [] 4 4; ENotify 1 2 3 2; ENotify 1 1 4 3]))
+  = [max_u64 / 9; max_u64 / 4; max_u64 / 9].
+Proof. vm_compute. reflexivity. Qed.
+
+(* the target recorded (sent) with a job a connection holds is the target of the difficulty of the job's own block -
+   the block a submission for that job is judged against *)
+Theorem C15_job_target_is_of_own_block : forall cfg pow evs s os cid c j,
+  Forall tpl_ok evs -> run cfg pow init_server evs = (s, os) -> nget (s_conns s) cid = Some c -> In j (c_jobs c) ->
+  exists b, nget (s_heap s) (j_ptr j) = Some b /\ 1 <= b_diff b /\ b_diff b < two64 /\ j_target j = max_u64 / b_diff b.
+Proof. exact job_target_is_of_own_block_run. Qed.
+Print Assumptions C15_job_target_is_of_own_block.
+
+(* A VALID SHARE IS NEVER REJECTED: whatever is submitted for a job the connection holds - any nonce, extra nonce and
+   merge-mining blob the server completes to a block jb whose mining blob is [judged], in whatever seed period the
+   timestamp of that blob lies -, when the proof-of-work value of the judged blob under THE JUDGED BLOB'S OWN SEED
+   meets the target that was sent with the job (in the code's own reading of a target, mergestratum.go), the block is
+   found: handed to the chain, paying the login address *)
+Theorem C15_share_meeting_target_is_found : forall cfg pow evs s os cid c jid j len n x mb b jb judged,
+  Forall tpl_ok evs -> run cfg pow init_server evs = (s, os) ->
+  nget (s_conns s) cid = Some c -> find_job (c_jobs c) jid = Some j -> 4 <= len ->
+  nget (s_heap s) (j_ptr j) = Some b -> complete cfg b n x mb = CBlock jb -> blob_of cfg jb = Some judged ->
+  meets_target (pow (blob_seed cfg judged) judged) (j_target j) = true ->
+  step cfg pow s (ESubmit cid jid (NBytes len n) x mb) = (s, OFound (c_addr c) judged).
+Proof. exact share_meeting_target_found_run. Qed.
+Print Assumptions C15_share_meeting_target_is_found.
+
+(* THE PROPERTY in the miner's own terms: after any interleaving, for a job within the advertised history, a nonce
+   whose value - for the blob that was sent with that job id, completed with the miner's nonce and extra nonce, under
+   that blob's seed - meets the target that was sent with that job id yields a block paying the miner's login address *)
+Theorem C15_advertised_share_is_found : forall cfg pow, cfg_ok_stratum cfg = true ->
+  forall evs s g cid v jid a len n x,
+  Forall tpl_ok evs -> run_view cfg pow init_server [] evs = (s, g) ->
+  nget g cid = Some v -> advertised cfg v jid = Some a -> 4 <= len ->
+  meets_target (pow (blob_seed cfg (miner_blob (a_sent a) n x)) (miner_blob (a_sent a) n x)) (a_target a) = true ->
+  step cfg pow s (ESubmit cid jid (NBytes len n) x MNone) = (s, OFound (mv_addr v) (miner_blob (a_sent a) n x)).
+Proof. exact advertised_share_found. Qed.
+Print Assumptions C15_advertised_share_is_found.
+
+(* SUBMITTED BLOBS ARE RECONSTRUCTED EXACTLY: a merge-mining submission that names, for this chain, the job's own hashing
+   id is either refused as a whole (chain list not strictly ascending, duplicates: connection dropped) or judged as
+   exactly the blob that was submitted, with the miner's nonce and extra nonce, under that blob's own seed (whatever seed
+   period its timestamp lies in), against the difficulty of the job's own block *)
+Theorem C15_merge_blob_judged_as_submitted : forall cfg pow evs s os cid c jid j len n x m,
+  run cfg pow init_server evs = (s, os) -> nget (s_conns s) cid = Some c -> find_job (c_jobs c) jid = Some j -> 4 <= len ->
+  own_entry cfg m = own_entry cfg (j_sent j) ->
+  exists b, nget (s_heap s) (j_ptr j) = Some b /\
+  (step cfg pow s (ESubmit cid jid (NBytes len n) x (MBlob m)) = (kick s cid, OBlobRefused) \/
+   step cfg pow s (ESubmit cid jid (NBytes len n) x (MBlob m)) =
+     submit_result s cid (judge cfg pow (b_diff b) (c_addr c) (miner_blob m n x))).
+Proof. exact merge_blob_judged_as_submitted_run. Qed.
+Print Assumptions C15_merge_blob_judged_as_submitted.
+
 (* whatever is submitted (any nonce, extra nonce, merge-mining blob): a block that is produced pays the login address
    of the submitting connection, and is judged, for this chain, on the hashing id of the sent blob *)
-Theorem C15_found_block_pays_owner : forall cfg pow_ok evs s os cid jid nonce x mb s' r judged,
-  run cfg pow_ok init_server evs = (s, os) -> step cfg pow_ok s (ESubmit cid jid nonce x mb) = (s', OFound r judged) ->
+Theorem C15_found_block_pays_owner : forall cfg pow evs s os cid jid nonce x mb s' r judged,
+  run cfg pow init_server evs = (s, os) -> step cfg pow s (ESubmit cid jid nonce x mb) = (s', OFound r judged) ->
   exists c j, nget (s_conns s) cid = Some c /\ find_job (c_jobs c) jid = Some j /\ r = c_addr c /\
     own_entry cfg judged = own_entry cfg (j_sent j) /\ pays cfg judged (c_addr c) = true /\ s' = s.
 Proof. exact found_block_pays_owner_run. Qed.
@@ -87,15 +172,15 @@ Print Assumptions C15_found_block_pays_owner.
 
 (* logins, templates, notifications, submissions and disconnections of the other miners leave a connection, its jobs
    and the blocks they point to exactly as they were *)
-Theorem C15_others_do_not_interfere : forall cfg pow_ok evs s os e s' o cid,
-  run cfg pow_ok init_server evs = (s, os) -> step cfg pow_ok s e = (s', o) -> event_cid e <> Some cid ->
+Theorem C15_others_do_not_interfere : forall cfg pow evs s os e s' o cid,
+  run cfg pow init_server evs = (s, os) -> step cfg pow s e = (s', o) -> event_cid e <> Some cid ->
   nget (s_conns s') cid = nget (s_conns s) cid /\
   (forall p b, nget (s_heap s) p = Some b -> nget (s_heap s') p = Some b).
 Proof. exact others_do_not_interfere_run. Qed.
 Print Assumptions C15_others_do_not_interfere.
 
 (* a submission - any nonce text, extra nonce, merge-mining blob, job id - never takes a panicking branch *)
-Theorem C15_submit_never_panics : forall cfg pow_ok evs s os cid jid nonce x mb s' o,
-  run cfg pow_ok init_server evs = (s, os) -> step cfg pow_ok s (ESubmit cid jid nonce x mb) = (s', o) -> o <> OPanic.
+Theorem C15_submit_never_panics : forall cfg pow evs s os cid jid nonce x mb s' o,
+  Forall tpl_ok evs -> run cfg pow init_server evs = (s, os) -> step cfg pow s (ESubmit cid jid nonce x mb) = (s', o) -> o <> OPanic.
 Proof. exact submit_never_panics_run. Qed.
 Print Assumptions C15_submit_never_panics.
